@@ -175,16 +175,6 @@ class RegexModel:
         if isinstance(lastv, Var) and '\n' in st.excl.get(lastv.name, ()):
             if not st.branch(a, f're#{i}$'): return False
             groups.append((name, seg)); return True
-        if len(segn.atoms) == 1:
-            zseg = segn.z(); bodyz = z3.SubString(zseg, 0, z3.Length(zseg) - 1)
-            optB = [z3.Not(az), z3.SuffixOf(z3.StringVal('\n'), zseg), z3.InRe(bodyz, zre)]
-            k = st.choose([('m', [az]), ('m-nl', optB), ('no', [z3.Not(z3.Or(az, z3.And(*optB)))])], f're#{i}$')
-            if k == 2: return False
-            if k == 0: groups.append((name, seg))
-            else:
-                x = segn.atoms[0]; u = Var(x.name + '.u'); st.excl[u.name] = set(st.excl.get(x.name, ()))
-                st.do_subst(x, (u, '\n')); groups.append((name, SStr([u])))
-            return True
         # structured segment ending in a variable that may end with "\n": decide that first, structurally
         x = lastv
         endsnl = SBool(z3.SuffixOf(z3.StringVal('\n'), x.z))
